@@ -21,6 +21,18 @@ Theorem C01_walk_layer_is_one_walk : forall (I : walk_inst) (a : var -> Q),
 Proof. exact walk_layer_is_one_walk. Qed.
 Print Assumptions C01_walk_layer_is_one_walk.
 
+(* C01/C14 (cyclic): the executable decoder Euler.solution_walk (model of get_solution_walks, tied to the code by
+   C14's exact-output correspondence) applied to a layer's solver values returns that walk, nothing left over *)
+Theorem C01_decoder_returns_the_layer_walk : forall (I : walk_inst) (a : var -> Q) i,
+  let G := w_graph I in let E := g_edges G in let s := g_src G in let t := g_snk G in
+  wf_stg G -> Forall (sat_col a) (walk_cols I) -> Forall (sat_row a) (walk_rows I) ->
+  o_allow_empty (w_opts I) = false -> In i (layers (w_k I)) ->
+  exists w', solution_walk (map (fun e => (e, a (evar e i))) E) s t = Some (O, w') /\
+             (forall e, In e E -> count_e e (pairs (s :: w' ++ [t])) = Z.to_nat (xint a i e)) /\
+             (forall e, ~ In e E -> count_e e (pairs (s :: w' ++ [t])) = 0%nat).
+Proof. exact walk_layer_solution_walk. Qed.
+Print Assumptions C01_decoder_returns_the_layer_walk.
+
 (* C02 (cyclic): kFlowDecompCycles' rows force sum_i W_i * x_i(e) = f(e) on every non-ignored edge, for
    each of the three product encodings (Pi = 0 / Pi = W shortcuts of the safety optimisations, bit expansion) *)
 Theorem C02_kfdc_rows_force_flow : forall (I : kfdc_inst) (a : var -> Q),
